@@ -207,7 +207,11 @@ impl<'a> Run<'a> {
             Ok(a) => {
                 if a.corrupt() {
                     self.poisoned = true;
-                    self.stats.bump("index_left_inconsistent_by_interrupted_rehash");
+                    if a.problems().is_empty() {
+                        self.stats.bump("post_fault_index_not_traversable_object_set_aside");
+                    } else {
+                        self.stats.bump("index_left_inconsistent_by_interrupted_rehash");
+                    }
                 }
                 Some(a)
             }
@@ -244,6 +248,7 @@ pub fn execute(t: &Trace, opts: Opts) -> ExecResult {
         budget: EVENT_BUDGET + 256 * (t.header.sizes.iter().take(3).map(|x| (*x).min(1 << 20) as u64).sum::<u64>()),
     };
     world::set_cb_panic(t.cb_panic_at);
+    world::set_contain(t.events.iter().any(|e| e.op.code == Code::Fill));
     if t.prop == "C18" && t.faults.is_empty() && t.events.iter().any(|e| e.op.code == Code::Fill) {
         world::record_kinds();
     }
